@@ -8,8 +8,9 @@ SPECS = [
          subst={"self.name_to_value[key]": "new_val", "self.name_to_count[key]": "new_count"},
          outputs=[("new_val", "Q"), ("new_count", "Z")]),
     dict(name="lg_is_excluded", qual="filter_excluded_keys.is_excluded", start=r"^return ", end=None, kind="expr", ret="bool",
-         inputs=[("has_key", "bool"), ("not_none", "bool"), ("fmt_in", "bool")],
-         subst={"key in key_excluded": "has_key", "key_excluded[key] is not None": "not_none", "_format in key_excluded[key]": "fmt_in"}),
+         inputs=[("has_key", "bool"), ("not_none", "bool"), ("fmt_in", "bool"), ("no_key", "bool"), ("is_none", "bool"), ("fmt_not_in", "bool")],
+         subst={"key in key_excluded": "has_key", "key_excluded[key] is not None": "not_none", "_format in key_excluded[key]": "fmt_in",
+                "key not in key_excluded": "no_key", "key_excluded[key] is None": "is_none", "_format not in key_excluded[key]": "fmt_not_in"}),
     dict(name="lg_human_hidden", qual="HumanOutputFormat.write", start=r"^if excluded\b", end=None, kind="test",
          inputs=[("not_none", "bool"), ("has_stdout", "bool"), ("has_log", "bool")],
          subst={"excluded is not None": "not_none", "'stdout' in excluded": "has_stdout", "'log' in excluded": "has_log"}),
